@@ -149,6 +149,10 @@ def run(ctx):
             jobs.append((inp, files, r))
         finally:
             impl.drop_scratch(d)
+    # ---- placement worlds: labels of 1-3 linked files and nested includes at addresses known by construction
+    from . import worlds
+    worlds.stream_layout(ctx, ctx.rng("c02-worlds"), 1500 if ctx.thorough else 300, impl)
+
     # ---- corpus: shapes the generator does not reach (run model-free: the hook-trace invariant)
     corpus = [
         # the include path is only known after a later definition (F-C02-1)
